@@ -430,6 +430,10 @@ class SnpFlow(Flow):
                         new = new or st.copy()
                         bd = R[2] if R[2] == "ANY" else frozenset(R[2] | self.cls(st, bk))
                         new.res[ak] = (R[0], R[1], bd, R[3])
+                # an accumulator tested to be zero: nothing has been accumulated on this path (lengths are non-negative)
+                if ak in (new or st).acc and o == "==" and bv == 0:
+                    new = new or st.copy()
+                    new.acc = new.acc - {ak}
                 # size facts
                 if bv is not None and ak not in st.res:
                     lbv = None
